@@ -92,7 +92,12 @@ func fkTarget(m *sqlprog.Model, t *sqlprog.Table, f sqlprog.Field) string {
 	return f.Foreign
 }
 
-func sqlLitToGo(v string) string { return strings.Trim(v, "'") }
+func sqlLitToGo(v string) string {
+	if len(v) >= 2 && strings.HasPrefix(v, "'") && strings.HasSuffix(v, "'") {
+		return strings.ReplaceAll(v[1:len(v)-1], "''", "'")
+	}
+	return v
+}
 
 func commentCols(c, prefix string) []string {
 	i := strings.Index(c, prefix)
